@@ -7,10 +7,10 @@ cd "$(dirname "$0")/.."; . ./env.sh >/dev/null 2>&1
 tag=$1; d=$2
 [ -f $d/patch.diff ] || exit 0
 [ -f $d/.done ] && exit 0
-mkdir -p /tmp/r9/${tag}_first
+mkdir -p ${RB:-/tmp/r9}/${tag}_first
 L=$(basename $d)
-prop=$(echo $d | sed 's#/tmp/r9/\(C[0-9]*\)/.*#\1#'); id=$prop-$L
-o=/tmp/r9/${tag}_first/$id.txt
+prop=$(echo $d | grep -o "C[0-9][0-9]" | head -1); id=$prop-$L
+o=${RB:-/tmp/r9}/${tag}_first/$id.txt
 out=$(tools/try_patch.sh $d/patch.diff $prop 2>&1)
 n=$(echo "$out" | grep -c "\[violation\]")
 echo "$id first-contact violations=$n" > $o
